@@ -212,11 +212,36 @@ fn inst_oracle(c: &Inst) -> Verdict {
     let et = lib!(e.to_time_scale(TimeScale::ET));
     ensure!(ue == format!("{} ET", render_iso(&greg_of_ns1900(count(et.duration) + greg_offset_ns(S_ET)))), "{{:E}} of {}: got {:?}", want, ue);
 
+    // the Gregorian string asked in ET / TDB is the text form of the library's own conversion (and the other way round
+    // for ET / TDB epochs asked in a uniform scale): no rounding on the way
+    {
+        ensure!(lib!(e.to_gregorian_str(TimeScale::TDB)) == le && lib!(e.to_gregorian_str(TimeScale::ET)) == ue, "to_gregorian_str(TDB / ET) of {} = {:?} / {:?}, want the {{:e}} / {{:E}} forms {:?} / {:?}", want, e.to_gregorian_str(TimeScale::TDB), e.to_gregorian_str(TimeScale::ET), le, ue);
+        if !exact(c.s) {
+            let gs_tai = lib!(e.to_gregorian_str(TimeScale::TAI));
+            ensure!(gs_tai == x, "to_gregorian_str(TAI) of {} = {:?}, want the {{:x}} form {:?}", want, gs_tai, x);
+        }
+    }
     Verdict::Pass(class, class != "plain")
+}
+
+// ---------------------------------------------------------------- the first calls of the process (enumerated, run first)
+fn first_calls_enum(_t: Tier, shard: usize, sink: &mut dyn FnMut(Inst) -> bool) {
+    if shard != 0 {
+        return;
+    }
+    // zero-like instants first (count 0, year 0, the reference epochs), then a late-December / early-March pair
+    for (y, m, d) in [(1900i64, 1u32, 1u32), (0, 1, 1), (0, 12, 31), (1, 1, 1), (2024, 12, 25), (2024, 3, 1), (1980, 1, 6), (2000, 1, 1)] {
+        for s in [S_TAI, S_UTC, S_GPST, S_TDB] {
+            if !sink(Inst { g: days_1900(y, m, d) as i128 * NS_D, s, full: true }) {
+                return;
+            }
+        }
+    }
 }
 
 pub fn subs() -> Vec<Box<dyn DynSub>> {
     vec![
+        sub(Sub { name: "c09.first_calls", source: Source::Enum(first_calls_enum, |_| true), oracle: inst_oracle, known: no_known, hang_is_violation: false }),
         sub(Sub { name: "c09.all_days", source: Source::Enum(inst_enum, |_| true), oracle: inst_oracle, known: no_known, hang_is_violation: false }),
         sub(Sub { name: "c09.generated", source: Source::Gen(inst_strategy, 600_000, 10_000_000), oracle: inst_oracle, known: no_known, hang_is_violation: false }),
         crate::props::fuzzsub::fc09(),
